@@ -178,23 +178,24 @@ type Cluster struct {
 	// "TimeSeriesList sent by the leaf task processor").
 	OnLeafResult func(leaf string, resp *protoCommonV1.TaskResponse)
 
-	mu       sync.Mutex
-	cond     *sync.Cond
-	sched    Scheduler
-	pending  []*Msg
-	active   int // deliveries in progress + running processors + pool tasks queued/running
-	seq      int64
-	closed   bool
-	trace    []string
-	traceOn  bool
-	endpoint map[string]*endpoint
-	leaves   []*endpoint
-	inters   []*endpoint
-	root     *endpoint
-	chooser  *Chooser
-	pools    []*countPool
-	stats    ClusterStats
-	waiters  map[int64]bool // goroutine ids of the uncounted helpers: the root's search call and running intermediate processors
+	mu         sync.Mutex
+	cond       *sync.Cond
+	sched      Scheduler
+	pending    []*Msg
+	active     int // deliveries in progress + running processors + pool tasks queued/running
+	seq        int64
+	closed     bool
+	trace      []string
+	traceOn    bool
+	endpoint   map[string]*endpoint
+	leaves     []*endpoint
+	inters     []*endpoint
+	root       *endpoint
+	chooser    *Chooser
+	pools      []*countPool
+	stats      ClusterStats
+	queryTrace []string       // transport events since the current query started
+	waiters    map[int64]bool // goroutine ids of the uncounted helpers: the root's search call and running intermediate processors
 }
 
 // ClusterStats counts what the transport carried.
@@ -364,6 +365,9 @@ func (c *Cluster) Chooser() *Chooser { return c.chooser }
 func (c *Cluster) tracef(format string, args ...interface{}) {
 	if c.traceOn {
 		c.trace = append(c.trace, fmt.Sprintf(format, args...))
+	}
+	if len(c.queryTrace) < 200 {
+		c.queryTrace = append(c.queryTrace, fmt.Sprintf(format, args...))
 	}
 }
 
@@ -732,6 +736,9 @@ type QueryResult struct {
 	// TimedOut: the watchdog fired while the cluster was not quiescent (inconclusive, never a verdict).
 	TimedOut bool
 	Elapsed  time.Duration
+	// StuckDump holds, for a stuck query, the transport events of the query and the goroutine dump taken when the
+	// verdict was reached.
+	StuckDump string
 }
 
 // Query parses sqlText and runs it as a metric data query: sql.Parse -> query.MetricDataSearch at the root.
@@ -762,6 +769,9 @@ func (c *Cluster) QueryStatement(q *stmt.Query, sqlText string) *QueryResult {
 }
 
 func (c *Cluster) run(res *QueryResult, q *stmt.Query) *QueryResult {
+	c.mu.Lock()
+	c.queryTrace = nil
+	c.mu.Unlock()
 	ctx, cancel := context.WithTimeout(context.Background(), c.Watchdog)
 	defer cancel()
 	type out struct {
@@ -831,6 +841,11 @@ func (c *Cluster) run(res *QueryResult, q *stmt.Query) *QueryResult {
 					continue
 				}
 				res.Stuck, res.Held = true, held
+				buf := make([]byte, 1<<20)
+				n := runtime.Stack(buf, true)
+				c.mu.Lock()
+				res.StuckDump = fmt.Sprintf("transport events of this query: %v\nactive=%d pending=%d\n%s", c.queryTrace, c.active, len(c.pending), buf[:n])
+				c.mu.Unlock()
 				cancel()
 				o := <-done
 				res.Err = o.err
